@@ -1127,3 +1127,27 @@ def m_float_to_bits(I, st, fr, args, path, gargs, t):
     if isinstance(v, Agg) and v.kind.startswith('float:'):
         return v.fields[0]
     raise Stop('to_bits of %r' % (v,))
+
+
+def _float_fields(v):
+    """(format, bits Int, exponent bits, fraction bits) of a float value given as its bit pattern"""
+    if isinstance(v, Agg) and v.kind in ('float:f64', 'float:f32') and isinstance(v.fields[0], Int):
+        return (v.kind[6:], v.fields[0]) + ((11, 52) if v.kind.endswith('f64') else (8, 23))
+    raise Stop('float value without a bit pattern: %r' % (v,))
+
+
+@model(r'core::f(32|64)::<impl f(32|64)>::(is_nan|is_infinite|is_finite)')
+def m_float_class(I, st, fr, args, path, gargs, t):
+    # IEEE 754: exponent field all ones: fraction == 0 -> infinity, != 0 -> NaN
+    fl, bits, eb, fb = _float_fields(args[0])
+    mag = I.divrem(st, 'Rem', bits, K(2 ** (eb + fb), bits.ty), bits.ty)          # without the sign bit
+    expo = I.mk(st, bits.ty, I.tdiv_atom(st, st.norm(mag.p), pconst(2 ** fb)))
+    allones = st.decide(padd(expo.p, pconst(2 ** eb - 1), -1), [ZERO, NEG | POS]) == 0
+    what = path.rsplit('::', 1)[1]
+    if not allones:
+        return K(1 if what == 'is_finite' else 0, 'bool')
+    frac = I.divrem(st, 'Rem', mag, K(2 ** fb, bits.ty), bits.ty)
+    zero = st.decide(frac.p, [ZERO, NEG | POS]) == 0
+    if what == 'is_finite':
+        return K(0, 'bool')
+    return K(int(zero if what == 'is_infinite' else not zero), 'bool')
